@@ -174,3 +174,16 @@ Section Spec.
     forallb (fun k => match lookup st k with Some f => nodup_strs (frag_names f) | None => true end) ks
     && forallb (fun l => nodup_strs (target_names (snd l))) ls.
 End Spec.
+
+(** * The property at full strength (no guard) — refuted for the current code, see
+      [C13_exact_full_refuted] etc.; the theorems that do hold carry explicit computable guards. *)
+Definition imports_exact_full : Prop :=
+  forall st root_path root ds,
+    resolve_imports st root_path root = inr ds ->
+    (forall d, In d ds <-> Closure st root_path root d) /\ NoDup ds.
+Definition imports_error_iff_full : Prop :=
+  forall st root_path root,
+    BadLine st root_path (fimports root) <->
+    exists e, resolve_imports st root_path root = inl e /\ positioned e = true.
+Definition imports_no_panic_full : Prop :=
+  forall st root_path root, resolve_imports st root_path root <> inl PanicMissingTarget.
